@@ -582,6 +582,7 @@ pub fn check(c: &Case) -> R {
     pass.add_if(c.ios.iter().any(|io| io.path % 4 == 3), "from_bufread");
     pass.add_if(c.recs.iter().any(|r| r.desc.is_some()), "description present");
     pass.add_if(c.recs.iter().any(|r| r.desc.is_none()), "no description");
+    pass.add_if(c.recs.iter().any(|r| r.desc.as_deref().map_or(false, |d| d.starts_with(' ') || d.starts_with('\t'))), "description starting with a blank");
     pass.add_if(c.recs.iter().any(|r| r.desc.as_deref().map_or(false, |d| d.contains('\t') || d.contains("  "))), "description with tab / double space");
     pass.add_if(c.recs.iter().any(|r| !r.id.is_ascii() || r.desc.as_deref().map_or(false, |d| !d.is_ascii())), "non-ASCII header");
     pass.add_if(c.layout.crlf, "CRLF");
@@ -682,7 +683,8 @@ fn id_strat() -> BoxedStrategy<String> {
     proptest::collection::vec(id_char(), 1..=12).prop_map(|v| v.into_iter().collect()).boxed()
 }
 
-/// non-empty, no line breaks, no leading/trailing whitespace; tabs and runs of blanks inside
+/// non-empty, no line breaks, no trailing whitespace (the readers trim the end of the header line, that is how
+/// CRLF is absorbed); tabs and runs of blanks inside and at the front (the id ends at the *first* blank)
 fn desc_strat() -> BoxedStrategy<String> {
     let ch = prop_oneof![
         120 => (b'!'..=b'~').prop_map(|b| b as char),
@@ -693,8 +695,8 @@ fn desc_strat() -> BoxedStrategy<String> {
     proptest::collection::vec(ch, 1..=24)
         .prop_map(|v| {
             let s: String = v.into_iter().collect();
-            let t = s.trim_matches(|c| c == ' ' || c == '\t');
-            if t.is_empty() {
+            let t = s.trim_end_matches(|c| c == ' ' || c == '\t');
+            if t.trim_start_matches(|c| c == ' ' || c == '\t').is_empty() {
                 "d".to_string()
             } else {
                 t.to_string()
@@ -1959,9 +1961,9 @@ pub mod large {
 pub fn property() -> Property {
     Property {
         id: "C11",
-        rule: "fasta/fastq: 1-6 generated records (id of 1-12 non-blank characters, optional description without line breaks and without leading/trailing blanks, sequence of 1-2000 symbols of [A-Za-z*.-], qualities of the same length over '!'..'~' with '@' or '+' forced first in a third of the records) are written with the library writer (FASTA line wrap none or 1..80; write() or write_record(); default or small BufWriter) and read back with 1-3 reader configurations = BufReader capacity (1, 2..64, 8192) x cyclic read() schedule (1..3, 1..50, 1..9000 bytes or unfragmented, optionally with injected ErrorKind::Interrupted) x construction path (with_capacity, new, from_bufread; records() or repeated read()); oracle = the generated records themselves. The same records rendered by the harness with re-wrapped (uniform or ragged, identical for sequence and quality) lines, CRLF and an optional missing last terminator must parse to the same records; get_kind / get_kind_seek / EitherRecords must select the kind and give the same records. Then the stream (writer output or harness layout) is cut at every offset (streams <= 600 bytes) or 64 sampled offsets and every prefix is fed to the format's reader, the other format's reader and EitherRecords with an item cap of bytes+8 (no panic, terminates); FASTQ: records of a cut stream that pass check() must be a subsequence (original order) of the written records. bytes: random bytes, grammar-aware junk and damaged valid files through all three parsers (no panic, item cap). Non-trivial (fasta/fastq) = at least 2 records, one sequence longer than a used buffer capacity and a read() boundary strictly inside a record; (bytes) = at least 2 bytes and some parser produced an item. large-*: parameter-only cases (records, file and reader configurations are a fixed splitmix64 function of them) push ONE size parameter across the ladder 255..257, 511..513, 1023..1025, 4095..4097, 8191..8193, 16383..16385, 32767..32769, 65535..65537, 69999..70001, 131071..131073, 2^19+-1, 2^20+-1: length of one unwrapped sequence line, line width (FASTA writer wrap + harness layout for both formats), number of lines of one record (width 1-3/61; multi-line FASTQ with homopolymer '+'/'@' qualities), description / id length (ASCII, multi-byte UTF-8, inner blanks), number of records (all-equal and random), BufReader capacity and read() chunk size with lines straddling them, BufWriter capacity, histories on one path (long, short, medium, short file; formats alternating) through to_file / to_file_with_capacity / from_file / from_file_with_capacity / EitherRecords::from_file / get_kind_file, truncation offset (no panic, item cap, FASTQ records passing check() are original records in order) and junk length (14 junk kinds). Every round trip is read through unfragmented readers (slice, from_bufread(Cursor), File), with_capacity, from_bufread + repeated read() over the chunked double, EitherRecords, get_kind, get_kind_seek; oracle = the generated records, compared streaming. The large-* grids are enumerated (every ladder value by construction, smallest first), large-random draws the same cases at random (values near the ladder or log-uniform up to 2^18). Non-trivial (large) = scaled value >= 255. Distinct = distinct serialised case.",
+        rule: "fasta/fastq: 1-6 generated records (id of 1-12 non-blank characters, optional description without line breaks and without trailing blanks (leading blanks included), sequence of 1-2000 symbols of [A-Za-z*.-], qualities of the same length over '!'..'~' with '@' or '+' forced first in a third of the records) are written with the library writer (FASTA line wrap none or 1..80; write() or write_record(); default or small BufWriter) and read back with 1-3 reader configurations = BufReader capacity (1, 2..64, 8192) x cyclic read() schedule (1..3, 1..50, 1..9000 bytes or unfragmented, optionally with injected ErrorKind::Interrupted) x construction path (with_capacity, new, from_bufread; records() or repeated read()); oracle = the generated records themselves. The same records rendered by the harness with re-wrapped (uniform or ragged, identical for sequence and quality) lines, CRLF and an optional missing last terminator must parse to the same records; get_kind / get_kind_seek / EitherRecords must select the kind and give the same records. Then the stream (writer output or harness layout) is cut at every offset (streams <= 600 bytes) or 64 sampled offsets and every prefix is fed to the format's reader, the other format's reader and EitherRecords with an item cap of bytes+8 (no panic, terminates); FASTQ: records of a cut stream that pass check() must be a subsequence (original order) of the written records. bytes: random bytes, grammar-aware junk and damaged valid files through all three parsers (no panic, item cap). Non-trivial (fasta/fastq) = at least 2 records, one sequence longer than a used buffer capacity and a read() boundary strictly inside a record; (bytes) = at least 2 bytes and some parser produced an item. large-*: parameter-only cases (records, file and reader configurations are a fixed splitmix64 function of them) push ONE size parameter across the ladder 255..257, 511..513, 1023..1025, 4095..4097, 8191..8193, 16383..16385, 32767..32769, 65535..65537, 69999..70001, 131071..131073, 2^19+-1, 2^20+-1: length of one unwrapped sequence line, line width (FASTA writer wrap + harness layout for both formats), number of lines of one record (width 1-3/61; multi-line FASTQ with homopolymer '+'/'@' qualities), description / id length (ASCII, multi-byte UTF-8, inner blanks), number of records (all-equal and random), BufReader capacity and read() chunk size with lines straddling them, BufWriter capacity, histories on one path (long, short, medium, short file; formats alternating) through to_file / to_file_with_capacity / from_file / from_file_with_capacity / EitherRecords::from_file / get_kind_file, truncation offset (no panic, item cap, FASTQ records passing check() are original records in order) and junk length (14 junk kinds). Every round trip is read through unfragmented readers (slice, from_bufread(Cursor), File), with_capacity, from_bufread + repeated read() over the chunked double, EitherRecords, get_kind, get_kind_seek; oracle = the generated records, compared streaming. The large-* grids are enumerated (every ladder value by construction, smallest first), large-random draws the same cases at random (values near the ladder or log-uniform up to 2^18). Non-trivial (large) = scaled value >= 255. Distinct = distinct serialised case.",
         assumptions: &[
-            "descriptions are non-empty and carry no leading/trailing blanks (a header line's trailing blanks and the empty description are not representable; the readers document trim_end)",
+            "descriptions are non-empty and carry no trailing blanks (a header line's trailing blanks and the empty description are not representable; the readers document trim_end)",
             "sequence lines never start with '>' or '+' (reserved by the formats); sequences are non-empty",
             "a line layout may leave the last line of the file unterminated (treated as part of 're-wrapping'/layout independence)",
             "the FASTA writer with line wrap w is expected to write lines of exactly w symbols (last line 1..w)",
